@@ -63,7 +63,7 @@ def ChosenPath (matchPat : Matcher Pat) (app : App Pat) (req : Req) (steps : Lis
     Complete matchPat req app.children steps st'
 
 /-- the router's outcome comes with a chosen path, and its ending is as `Ends` says -/
-theorem chosen_exists (matchPat : Matcher Pat) (app : App Pat) (req : Req) :
+theorem C09_chosen_exists (matchPat : Matcher Pat) (app : App Pat) (req : Req) :
     ∃ steps, ChosenPath matchPat app req steps (routeApp matchPat app req).st ∧
       Ends matchPat req (.sc app.children) (effDefault app.dflt .notFound) steps
         (routeApp matchPat app req) := by
@@ -76,16 +76,16 @@ theorem C09_path_unique (matchPat : Matcher Pat) (app : App Pat) (req : Req) :
     ∃ steps, ChosenPath matchPat app req steps (routeApp matchPat app req).st ∧
       ∀ steps' st', ChosenPath matchPat app req steps' st' →
         steps' = steps ∧ st' = (routeApp matchPat app req).st := by
-  obtain ⟨steps, hc, _⟩ := chosen_exists matchPat app req
+  obtain ⟨steps, hc, _⟩ := C09_chosen_exists matchPat app req
   exact ⟨steps, hc, fun steps' st' hc' => walk_unique hc'.1 hc'.2 hc.1 hc.2⟩
 
 /-- any chosen path is *the* path the router took, with the router's ending -/
-theorem chosen_ends {matchPat : Matcher Pat} {app : App Pat} {req : Req} {steps : List (Step Pat)}
+theorem C09_chosen_ends {matchPat : Matcher Pat} {app : App Pat} {req : Req} {steps : List (Step Pat)}
     {st' : St} (h : ChosenPath matchPat app req steps st') :
     st' = (routeApp matchPat app req).st ∧
       Ends matchPat req (.sc app.children) (effDefault app.dflt .notFound) steps
         (routeApp matchPat app req) := by
-  obtain ⟨steps0, hc, he⟩ := chosen_exists matchPat app req
+  obtain ⟨steps0, hc, he⟩ := C09_chosen_exists matchPat app req
   obtain ⟨e1, e2⟩ := walk_unique h.1 h.2 hc.1 hc.2
   subst e1
   exact ⟨e2, he⟩
@@ -105,7 +105,7 @@ theorem C09_params_exact (matchPat : Matcher Pat) (app : App Pat) (req : Req)
     out.st.ids = steps.map (·.idx) ∧
     ∀ pre s post, steps = pre ++ s :: post →
       matchPat s.node.pat s.node.isPrefix (req.path.drop (lensOf pre)) = some (s.len, s.caps) := by
-  obtain ⟨e, _⟩ := chosen_ends h
+  obtain ⟨e, _⟩ := C09_chosen_ends h
   subst e
   obtain ⟨h1, h2, _, h4⟩ := walk_state h.1
   simp only [St.init, Nat.zero_add, List.nil_append] at h1 h2 h4
@@ -124,7 +124,7 @@ theorem C09_data_innermost (matchPat : Matcher Pat) (app : App Pat) (req : Req)
     let out := routeApp matchPat app req
     out.st.data = app.data.toList ++ steps.filterMap (·.node.data) ∧
     lookupData out = (app.data.toList ++ steps.filterMap (·.node.data)).getLast? := by
-  obtain ⟨e, _⟩ := chosen_ends h
+  obtain ⟨e, _⟩ := C09_chosen_ends h
   subst e
   obtain ⟨_, _, h3, _⟩ := walk_state h.1
   simp only [St.init] at h3
@@ -160,7 +160,7 @@ theorem C09_handler (matchPat : Matcher Pat) (app : App Pat) (req : Req)
     (routeApp matchPat app req).target = .handler hid ↔
       ∃ s pat gs data routes dflt, steps.getLast? = some s ∧
         s.node = .resource pat gs data routes dflt ∧ firstRoute req routes = some hid := by
-  obtain ⟨_, he⟩ := chosen_ends h
+  obtain ⟨_, he⟩ := C09_chosen_ends h
   unfold Ends finalLevel at he
   constructor
   · intro ht
@@ -209,7 +209,7 @@ theorem C09_default_nearest (matchPat : Matcher Pat) (app : App Pat) (req : Req)
     (steps : List (Step Pat)) (st' : St) (h : ChosenPath matchPat app req steps st')
     (hnot : ∀ hid, (routeApp matchPat app req).target ≠ .handler hid) :
     (routeApp matchPat app req).target = finalFallback (effDefault app.dflt .notFound) steps := by
-  obtain ⟨_, he⟩ := chosen_ends h
+  obtain ⟨_, he⟩ := C09_chosen_ends h
   unfold Ends at he
   cases hl : finalLevel (.sc app.children) steps with
   | res routes =>
@@ -259,7 +259,7 @@ theorem C09_405 (matchPat : Matcher Pat) (app : App Pat) (req : Req)
     (routeApp matchPat app req).target = .notAllowed ↔
       ∃ s pat gs data routes, steps.getLast? = some s ∧
         s.node = .resource pat gs data routes none ∧ ∀ r ∈ routes, ¬ GuardsOk req r.guards := by
-  obtain ⟨_, he⟩ := chosen_ends h
+  obtain ⟨_, he⟩ := C09_chosen_ends h
   unfold Ends finalLevel at he
   have hfb0 : effDefault app.dflt .notFound ≠ .notAllowed := by
     cases hd : app.dflt <;> simp [effDefault]
